@@ -565,6 +565,7 @@ pub fn video_frame(cfg: &CfgGene, g: &VGene, idx: usize, first: bool, fc: &mut F
                 if g.size % 8 == 5 && (g.size / 8) % 3 == slot {
                     192 + ((g.size / 24) % 48) as u8
                 } else if g.size % 8 == 3 && slot == 0 {
+                    // (slot 0 is the SPS of both codecs)
                     160 + ((g.size / 8) % 32) as u8
                 } else {
                     fill
